@@ -496,7 +496,8 @@ OUT0 = 'some OUT text\nout 2\n'
 ERR0 = 'an err text\n'
 OUTS = (OUT0, 'other OUT\n', '')
 ERRS = (ERR0, '')
-CODES_QUICK = (0, 1, 2, 127, 255)
+CODES_QUICK = (0, 1, 255)
+CODES_THOROUGH = (0, 1, 2, 126, 127, 128, 255)
 SOURCE_LINES = ('line one $x "q"', "  line 'two'  ", '', '#! four')
 
 HDS_FILES = (('f.txt', sp.FILE_TXT, 0o644), ('exe', '#!/bin/sh\n', 0o755), ('src.py', 'the source file\n', 0o644))
@@ -668,15 +669,16 @@ def _k3_cases(tier: str) -> List[K3Case]:
     add('cmd/sys-consts', act=sys_(['spaces', 'sq-in-dq', 'dq-in-sq', 'stdin-like', 'reserved-colon', 'reserved-paren',
                                     'reserved-and', 'equals-sign', 'glob', 'dollar', 'sym-hard-quoted', 'sym', 'rest']))
     add('cmd/file', act=Pgm('file', 'exe', ['sym', 'plain']), setup_stdin='string')
-    add('cmd/python', act=Pgm('python', '', ['option', 'sym'], parens=True))
+    add('cmd/python', act=Pgm('python', '', ['option', 'sym'], parens=True), setup_stdin='empty')
     add('cmd/shell', act=Pgm('shell', 'echo "a  b"   \'c\' @[S0]@ | cat -n',
                              head_value=[sp.C('echo "a  b"   \'c\' '), sp.S(0), sp.C(' | cat -n')]), setup_stdin='here-doc')
-    add('cmd/continuation', act=sys_(['plain', 'sym', 'sym1'], continuation=True))
-    # ---- stdin of every kind of text source
-    for t in sp.T:
-        add('stdin/setup-' + t, act=sys_(['plain']), setup_stdin=t)
-    add('stdin/pgm-string', act=sys_(['plain'], stdin='string'))
-    add('stdin/pgm-program', act=sys_(['sym'], stdin='program'))
+    add('cmd/continuation', act=sys_(['plain', 'sym', 'sym1'], continuation=True), setup_stdin='string-sq')
+    # ---- stdin of every kind of text source (quick: each kind rides on one of the scenarios; thorough: one by one)
+    if tier == 'thorough':
+        for t in sp.T:
+            add('stdin/setup-' + t, act=sys_(['plain']), setup_stdin=t)
+        add('stdin/pgm-string', act=sys_(['plain'], stdin='string'))
+    add('stdin/pgm-program', act=sys_(['sym'], stdin='program'), setup_stdin='sym3')
     add('stdin/pgm+setup', act=sys_(['sym'], stdin='here-doc'), setup_stdin='file', cd=True)
     add('stdin/pgm-file+setup-program', act=sys_([], stdin='file'), setup_stdin='program')
     # ---- chains of program symbols
@@ -797,7 +799,10 @@ REAL_K4 = (
 
 
 def _pre_k4a(code, ignore, is_assert) -> bool:
-    return True
+    c = ob.case()
+    # the real translator renders the exit code into its message eagerly, which makes the solver enumerate
+    # the integer: bounded (K1 shows that the child's code reaches Python unchanged for all of Z)
+    return c['lo'] <= code <= c['hi']
 
 
 def k4_verdict(code: int, ignore: bool, is_assert: bool) -> bool:
@@ -853,7 +858,13 @@ def _k4_cases(tier: str) -> List[K3Case]:
 
 
 def _codes(tier_case) -> tuple:
-    return tuple(range(256)) if tier_case.get('all_codes') else CODES_QUICK
+    if tier_case.get('all_codes'):
+        return tuple(range(256))
+    return CODES_THOROUGH if tier_case.get('tier') == 'thorough' else CODES_QUICK
+
+
+def _outs(tier_case) -> tuple:
+    return OUTS if tier_case.get('tier') == 'thorough' else OUTS[:2]
 
 
 def _pre_k4b(io, ie, ic, k0) -> bool:
@@ -862,7 +873,7 @@ def _pre_k4b(io, ie, ic, k0) -> bool:
         return False
     if _k3_case(c['scenario']).actor == 'null' and not (io == 0 and ie == 0 and ic == 0):
         return False
-    return 0 <= io < len(OUTS) and 0 <= ie < len(ERRS) and 0 <= ic < len(_codes(c))
+    return 0 <= io < len(_outs(c)) and 0 <= ie < len(ERRS) and 0 <= ic < len(_codes(c))
 
 
 def k4_outcome(io: int, ie: int, ic: int, k0: int) -> bool:
@@ -872,7 +883,7 @@ def k4_outcome(io: int, ie: int, ic: int, k0: int) -> bool:
     """
     from vsym import xly
     case = _k3_case(ob.case()['scenario'])
-    out, err, code = ob.pick(OUTS, io), ob.pick(ERRS, ie), ob.pick(_codes(ob.case()), ic)
+    out, err, code = ob.pick(_outs(ob.case()), io), ob.pick(ERRS, ie), ob.pick(_codes(ob.case()), ic)
     xly.install_int_placeholders([k0])
     try:
         child = L.Child(out=out, err=err, code=code, read_file_arg=(-1 if case.actor == 'source' else None))
@@ -997,7 +1008,7 @@ def obligations(tier: str) -> List[Ob]:
                   bound='seeded oracle error: accumulated arguments expected in reverse order', timeout=120,
                   expect=ob.REFUTE, real=REAL_K2, stubs=(STUB_SYMBOLS, STUB_SINK)))
     # ---- K3
-    m3 = 2 if tier == 'quick' else 3
+    m3 = 1 if tier == 'quick' else 3
     for c in _k3_cases(tier):
         obs.append(Ob(
             name='K3:' + c.name, fn='k3_whole', case=dict(scenario=c.name, maxlen=m3), kernel='K3',
@@ -1016,28 +1027,32 @@ def obligations(tier: str) -> List[Ob]:
                   bound='seeded oracle error: [setup] stdin expected before the stdin of the program', timeout=120,
                   expect=ob.REFUTE, real=REAL_K3, stubs=(STUB_SUBPROCESS, STUB_SYMBOLS, STUB_SANDBOX)))
     # ---- K4
-    obs.append(Ob(name='K4:verdict', fn='k4_verdict', case=dict(), kernel='K4',
-                  bound='every exit code in Z, with and without -ignore-exit-code, as assertion and as non-assertion',
+    vc = dict(lo=-2 ** 31, hi=2 ** 31)
+    obs.append(Ob(name='K4:verdict', fn='k4_verdict', case=vc, kernel='K4',
+                  bound='every exit code in -2^31..2^31, with and without -ignore-exit-code, as assertion and as non-assertion',
                   timeout=120, real=REAL_K4,
                   outside=('the exit code is handed to the translators directly (between the child and the translator it '
                            'is written to a file, see K4:instr/*)',),
                   entry='run.parts_parser -> result translator'))
-    obs.append(Ob(name='K4:seeded-negative-exit-codes-pass', fn='k4_verdict', case=dict(oracle_bug='positive-only'),
+    obs.append(Ob(name='K4:seeded-negative-exit-codes-pass', fn='k4_verdict', case=dict(lo=-4, hi=8, oracle_bug='positive-only'),
                   kernel='K4', bound='seeded oracle error: only positive exit codes expected to fail', timeout=120,
                   expect=ob.REFUTE, real=REAL_K4))
+    tc = dict(tier=tier)
     for c in _k4_cases(tier):
+        if tier == 'quick' and c.name in ('outcome/command',) or (tier == 'quick' and c.name.endswith('/run-ref')):
+            continue  # thorough only (quick: the transformed variant / plain run cover the same code)
         if c.name.startswith('outcome/'):
             obs.append(Ob(
-                name='K4:' + c.name, fn='k4_outcome', case=dict(scenario=c.name), kernel='K4',
+                name='K4:' + c.name, fn='k4_outcome', case=dict(scenario=c.name, tier=tier), kernel='K4',
                 bound='test case %r: child stdout in %r, stderr in %r, exit code in %r (symbolic selectors), '
-                      'every operand K0 in Z of `exit-code ==`' % (c.text(), OUTS, ERRS, CODES_QUICK),
-                timeout=600, real=REAL_K3, stubs=(STUB_SUBPROCESS, STUB_INT, STUB_SANDBOX),
+                      'every operand K0 in Z of `exit-code ==`' % (c.text(), _outs(tc), ERRS, _codes(tc)),
+                timeout=900, real=REAL_K3, stubs=(STUB_SUBPROCESS, STUB_INT, STUB_SANDBOX),
                 entry='full_execution.execute on the parsed test case'))
         else:
             obs.append(Ob(
-                name='K4:' + c.name, fn='k4_instruction', case=dict(scenario=c.name), kernel='K4', selector=True,
+                name='K4:' + c.name, fn='k4_instruction', case=dict(scenario=c.name, tier=tier), kernel='K4', selector=True,
                 bound='test case %r: exit code of the instruction\'s program in %r, with and without -ignore-exit-code '
-                      '(run only)' % (c.text(), CODES_QUICK),
+                      '(run only)' % (c.text(), _codes(tc)),
                 timeout=300, real=REAL_K3 + REAL_K4, stubs=(STUB_SUBPROCESS, STUB_SANDBOX),
                 entry='full_execution.execute on the parsed test case'))
     if tier == 'thorough':
@@ -1052,7 +1067,7 @@ def obligations(tier: str) -> List[Ob]:
                 bound='exit code of the program of `run` in [%s]: every value 0..255, with and without -ignore-exit-code' % ph,
                 timeout=1800, real=REAL_K3 + REAL_K4, stubs=(STUB_SUBPROCESS, STUB_SANDBOX)))
     obs.append(Ob(name='K4:seeded-exit-code-le', fn='k4_outcome',
-                  case=dict(scenario='outcome/command', oracle_bug='exit-code-le'), kernel='K4',
+                  case=dict(scenario='outcome/file', oracle_bug='exit-code-le'), kernel='K4',
                   bound='seeded oracle error: `exit-code == K0` expected to hold when the code is <= K0', timeout=300,
                   expect=ob.REFUTE, real=REAL_K3, stubs=(STUB_SUBPROCESS, STUB_INT, STUB_SANDBOX)))
     obs.append(Ob(name='K4:seeded-hard-error-in-assert', fn='k4_instruction',
